@@ -546,7 +546,7 @@ func init() {
 		if e := ip.mapFind(m, args[1]); e != nil {
 			e.v = args[2]
 		} else {
-			m.entries = append(m.entries, &mapEntry{k: args[1], v: args[2]})
+			m.add(&mapEntry{k: args[1], v: args[2]})
 		}
 		return nil
 	})
@@ -555,7 +555,7 @@ func init() {
 		if e := ip.mapFind(m, args[1]); e != nil {
 			return Tuple{e.v, tTrue}
 		}
-		m.entries = append(m.entries, &mapEntry{k: args[1], v: args[2]})
+		m.add(&mapEntry{k: args[1], v: args[2]})
 		return Tuple{args[2], tFalse}
 	})
 	reg("(*sync.Map).Delete", func(ip *Interp, fr *frame, args []Value) Value {
@@ -563,7 +563,7 @@ func init() {
 		if e := ip.mapFind(m, args[1]); e != nil {
 			for i, c := range m.entries {
 				if c == e {
-					m.entries = append(append([]*mapEntry{}, m.entries[:i]...), m.entries[i+1:]...)
+					m.removeAt(i)
 					break
 				}
 			}
